@@ -1010,6 +1010,10 @@ class _ColumnsParsedFmt:
             result.min_w = -1
             result.max_w = -1
         elif width_fmt:
+            # fmt reported for a printed table contains actual width of the
+            # column: "3-10(7)". It is an annotation, not a part of the format
+            if width_fmt.endswith(')') and '(' in width_fmt:
+                width_fmt = width_fmt[:width_fmt.index('(')]
             chunks = width_fmt.split('-')
             if len(chunks) > 2:
                 raise ValueError(f"Invalid width range: '{width_fmt}'")
